@@ -379,7 +379,8 @@ impl RecordSet {
         // if the Records are identical, ignore the update, update all that are not (ttl, etc.)
         let mut replaced = false;
         for i in to_replace {
-            if self.records[i] == record {
+            // Record equality does not cover the ttl
+            if self.records[i] == record && self.records[i].ttl == record.ttl {
                 return false;
             }
 
